@@ -445,15 +445,128 @@ class FGet(FSearch):
             self.oblige(st, "F-LEAF:_bucket_get:" + nm, z3.Implies(xg, g))
 
 
+class FAppend(FLeaf):
+    """F-LEAF, gather: `bucket_append(self, from, i, n, copyValues, overallocate)` - how multiunion (and the C merges)
+    move a slice of one leaf to the end of another.  `Bucket_grow` is executed in place.
+      requires   the authors' asserts: self != from, i >= 0, n > 0, i + n <= from->len; vectors of distinct leaves do
+                 not overlap; copyValues => both leaves have value vectors (or self is empty)
+      returns 0  =>  len' == len0 + n <= size';  the first len0 entries of self untouched;
+                     keys'[len0 + j] == from->keys[i + j] for every j < n  (values alike when copyValues);  `from` untouched
+      returns -1 =>  len and the first len0 entries of self are as they were
+    (`F-LEAF:bucket_append:<clause>`)."""
+
+    @classmethod
+    def applies(cls, tu, fn):
+        return fn == "bucket_append"
+
+    def on_entry(self, st):
+        self.loops, self.ctx, self.active, self.covers = {}, {}, [], []
+        ps = {p.get("name"): p["id"] for p in self.fn.get("inner", []) if p["kind"] == "ParmVarDecl"}
+        need = {"self", "from", "i", "n", "copyValues"}
+        if not need <= set(ps):
+            raise Unsupported("bucket_append's parameters %s not found" % sorted(need - set(ps)))
+        self.P = {k: st.vars[v] for k, v in ps.items()}
+        self.P["changed"] = z3.IntVal(0)
+        S, F = self.P["self"], self.P["from"]
+        self.kmem = self.vmem = None
+        for x in walk(self.fn):
+            if x.get("kind") == "MemberExpr" and x.get("name") in ("keys", "values"):
+                q = x.get("type", {}).get("desugaredQualType") or x.get("type", {}).get("qualType", "")
+                t = "*" + _one_star_less(q.replace("const ", "").replace(" ", ""))
+                if x["name"] == "keys":
+                    self.kmem = t
+                else:
+                    self.vmem = t
+        for f in ("len", "size", "keys", "values"):
+            self.hread(st, f, S)
+            self.hread(st, f, F)
+        for m in (self.kmem, self.vmem):
+            if m and m not in st.heap:
+                st.heap[m] = z3.Const("H0_" + m, z3.ArraySort(INT, INT))
+        self.E = st.clone()
+        E = self.E
+        self.len0, self.size0 = self.hread(E, "len", S), self.hread(E, "size", S)
+        self.K0, self.V0 = self.hread(E, "keys", S), self.hread(E, "values", S)
+        self.FK, self.FV, self.flen = self.hread(E, "keys", F), self.hread(E, "values", F), self.hread(E, "len", F)
+        i, n, cv = self.P["i"], self.P["n"], self.P["copyValues"] != 0
+        l0, s0, k0, v0, fk, fv, fl = self.len0, self.size0, self.K0, self.V0, self.FK, self.FV, self.flen
+        blocks = [(k0, s0), (v0, s0), (fk, fl), (fv, fl)]
+        pre = [S != F, S != 0, F != 0, i >= 0, n > 0, i + n <= fl, 0 <= l0, l0 <= s0, z3.Implies(s0 > 0, k0 > 0), v0 >= 0, fk > 0, fv >= 0,
+               z3.Implies(cv, z3.And(fv > 0, z3.Or(v0 > 0, s0 == 0))), z3.Implies(z3.Not(cv), z3.Or(v0 == 0, s0 == 0))]
+        for a in range(len(blocks)):
+            for b in range(a + 1, len(blocks)):
+                (p, c), (q, d) = blocks[a], blocks[b]
+                pre.append(z3.Or(p == 0, q == 0, p + c <= q, q + d <= p))
+        self.assumptions += pre
+        self.blocks = blocks
+        self.after = True
+        self.changed_calls = []
+        self.covers = [("F-LEAF:bucket_append:cover:precondition", list(self.assumptions) + [l0 > 1, n > 1])]
+
+    def on_call(self, name, args, n, st):
+        if name == "memcpy":
+            field, which = self.mem_of(n["inner"][1])
+            if field is None:
+                raise Unsupported("memcpy destination is not a vector of self")
+            cnt = self.count_of(n["inner"][3], st)
+            dst, src = args[0], args[1]
+            S = self.P["self"]
+            base, size = self.hread(st, which, S), self.hread(st, "size", S)
+            fbase = self.FK if which == "keys" else self.FV
+            tag = "F-LEAF:bucket_append:memcpy[%s]:" % which
+            self.oblige(st, tag + "destination-in-bounds", z3.And(cnt >= 0, base != 0, dst >= base, dst + cnt <= base + size))
+            self.oblige(st, tag + "source-in-bounds", z3.And(src >= fbase, src + cnt <= fbase + self.flen))
+            self.copy(st, field, dst, src, cnt)
+            return dst
+        return super().on_call(name, args, n, st)
+
+    def on_return(self, st, v):
+        if v is None:
+            return
+        S, F = self.P["self"], self.P["from"]
+        E = self.E
+        i, n, cv = self.P["i"], self.P["n"], self.P["copyValues"] != 0
+        l0 = self.len0
+        lenp, sizep = self.hread(st, "len", S), self.hread(st, "size", S)
+        Kp, Vp = self.hread(st, "keys", S), self.hread(st, "values", S)
+        j0 = fresh("j0")
+
+        def rd(state, mem, base, j):
+            return z3.Select(state.heap.get(mem, z3.Const("H0_" + mem, z3.ArraySort(INT, INT))), base + j)
+        kept_k = z3.Implies(z3.And(0 <= j0, j0 < l0), rd(st, self.kmem, Kp, j0) == rd(E, self.kmem, self.K0, j0))
+        kept_v = z3.Implies(z3.And(self.V0 != 0, 0 <= j0, j0 < l0), rd(st, self.vmem, Vp, j0) == rd(E, self.vmem, self.V0, j0))
+        G = {
+            "length": z3.Implies(v == 0, z3.And(lenp == l0 + n, lenp <= sizep, Kp != 0)),
+            "old_keys_kept": z3.Implies(v == 0, kept_k),
+            "old_values_kept": z3.Implies(v == 0, kept_v),
+            "appended_keys": z3.Implies(z3.And(v == 0, 0 <= j0, j0 < n), rd(st, self.kmem, Kp, l0 + j0) == rd(E, self.kmem, self.FK, i + j0)),
+            "appended_values": z3.Implies(z3.And(v == 0, cv, 0 <= j0, j0 < n), rd(st, self.vmem, Vp, l0 + j0) == rd(E, self.vmem, self.FV, i + j0)),
+            "source_untouched": z3.And(self.hread(st, "len", F) == self.flen, self.hread(st, "keys", F) == self.FK,
+                                       z3.Implies(z3.And(0 <= j0, j0 < self.flen), rd(st, self.kmem, self.FK, j0) == rd(E, self.kmem, self.FK, j0))),
+            "failure_keeps_contents": z3.Implies(v == -1, z3.And(lenp == l0, kept_k, kept_v)),
+            "result_domain": z3.Or(v == 0, v == -1),
+        }
+        for nm, g in G.items():
+            self.oblige(st, "F-LEAF:bucket_append:" + nm, g)
+
+    def post(self, c, st):
+        pass
+
+    def havoc_heap(self, st, why, keep=()):
+        # the only loops (object keys / values) call Py_INCREF on the copied slots: no field or vector is written (A4)
+        return
+
+
+
 class FLeafAny(CExec):
     family = "F-LEAF"
 
     @classmethod
     def applies(cls, tu, fn):
-        return fn in ("_bucket_set", "_bucket_get") and FSearch.applies(tu, fn)
+        return (fn in ("_bucket_set", "_bucket_get") and FSearch.applies(tu, fn)) or fn == "bucket_append"
 
     def __new__(cls, tu, fname):
-        return {"_bucket_set": FLeaf, "_bucket_get": FGet}[fname](tu, fname)
+        return {"_bucket_set": FLeaf, "_bucket_get": FGet, "bucket_append": FAppend}[fname](tu, fname)
 
 
 ANALYSIS = {"F-LEAF": FLeafAny}
